@@ -433,6 +433,7 @@ func groupScenario(s *Sim, params map[string]string) {
 		b.Versions[3] = [2]int16{0, Pick(t, "cfg", int16(8), 6, 1)}
 	}
 	cl.GroupInitialDelay = Pick(t, "cfg", time.Duration(0), 0, 500*time.Millisecond)
+	cl.MetaOrder = Pick(t, "cfg", 0, 0, 1, 2, 3) // brokers list partitions in no particular order
 	ntop := t.Range("cfg", 1, 2)
 	var topics []string
 	lo := LayoutOpts{Stream: "layout", Magics: []int8{1}, Codecs: []int8{0, 1, 2}}
